@@ -134,7 +134,7 @@ func RunCheck(s *CheckSpec) int {
 			continue
 		}
 		unknown++
-		if i < 4 {
+		if i < 2 {
 			legOpt := RunOpt{Tier: s.Tier, Leg: v.Leg}
 			for _, l := range s.Legs {
 				if l.Name == v.Leg {
@@ -194,7 +194,7 @@ func MinimiseInProcess(e Engine, v *Violation, opt RunOpt, maxExec int) *Violati
 	if maxExec <= 0 {
 		maxExec = 1500
 	}
-	deadline := time.Now().Add(90 * time.Second)
+	deadline := time.Now().Add(45 * time.Second)
 	test := func(tp []uint32) bool {
 		if time.Now().After(deadline) {
 			return false
